@@ -126,22 +126,23 @@ func (o c40Op) String() string {
 
 // c40Spec is the pure-function-of-(seed, case) description of one program.
 type c40Spec struct {
-	Case         int
-	Interceptors bool
-	G            int
-	Rounds       int
-	FirstOfferer int
-	WaitConnect  bool
-	CloseMid     bool
-	Graceful     bool
-	CloseTarget  int
-	CloseAt      int // signaling phase (number of returned signaling calls) at which the closer fires
-	CloseDelayUs int
-	WorkerClose  bool // additionally one worker ends its list with Close (Close from several goroutines)
+	Case          int
+	Interceptors  bool
+	G             int
+	Rounds        int
+	FirstOfferer  int
+	WaitConnect   bool
+	CloseMid      bool
+	Graceful      bool
+	CloseTarget   int
+	CloseAt       int // signaling phase (number of returned signaling calls) at which the closer fires
+	CloseDelayUs  int
+	WorkerClose   bool // additionally one worker ends its list with Close (Close from several goroutines)
 	NRTP, NSample int
-	PreAdd       int // tracks added before the concurrent phase (so that round 1 already carries media)
-	RoundGapUs   []int
-	Lists        [][]c40Op
+	PreAdd        int // tracks added to the first offerer before the concurrent phase (round 1 already carries media)
+	LingerUs      int // workers continue this long after the last signaling call returned
+	RoundGapUs    []int
+	Lists         [][]c40Op
 }
 
 func c40GenSpec(r *kit.Rand, i int) *c40Spec {
@@ -167,6 +168,7 @@ func c40GenSpec(r *kit.Rand, i int) *c40Spec {
 	for k := 0; k < s.Rounds; k++ {
 		s.RoundGapUs = append(s.RoundGapUs, r.Intn(8000))
 	}
+	s.LingerUs = r.Intn(40000)
 	total := 0
 	for _, w := range c40KindWeights {
 		total += w
@@ -226,9 +228,9 @@ func c40GenSpec(r *kit.Rand, i int) *c40Spec {
 
 func (s *c40Spec) Desc() string {
 	var b strings.Builder
-	fmt.Fprintf(&b, "ic=%v G=%d rounds=%d first=%d waitconn=%v closeMid=%v graceful=%v target=%d at=%d+%dus wclose=%v tracks=%d+%d pre=%d gaps=%v",
+	fmt.Fprintf(&b, "ic=%v G=%d rounds=%d first=%d waitconn=%v closeMid=%v graceful=%v target=%d at=%d+%dus wclose=%v tracks=%d+%d pre=%d linger=%d gaps=%v",
 		s.Interceptors, s.G, s.Rounds, s.FirstOfferer, s.WaitConnect, s.CloseMid, s.Graceful, s.CloseTarget, s.CloseAt,
-		s.CloseDelayUs, s.WorkerClose, s.NRTP, s.NSample, s.PreAdd, s.RoundGapUs)
+		s.CloseDelayUs, s.WorkerClose, s.NRTP, s.NSample, s.PreAdd, s.LingerUs, s.RoundGapUs)
 	for g, l := range s.Lists {
 		fmt.Fprintf(&b, " | w%d:", g)
 		for _, o := range l {
@@ -786,8 +788,8 @@ func c40RunProgram(spec *c40Spec, slot int) *c40Result { //nolint:cyclop
 	// media present from round 1 in some programs (sequential set-up, still only listed calls)
 	for i := 0; i < spec.PreAdd; i++ {
 		tr, idx := p.track(i * 2)
-		if !p.used[0][idx].Swap(true) {
-			_, _ = p.pcs[0].AddTrack(tr)
+		if fo := spec.FirstOfferer; !p.used[fo][idx].Swap(true) {
+			_, _ = p.pcs[fo].AddTrack(tr)
 		}
 	}
 
@@ -820,6 +822,7 @@ func c40RunProgram(spec *c40Spec, slot int) *c40Result { //nolint:cyclop
 	spawn(func() {
 		<-p.sigDone
 		<-closerDone
+		time.Sleep(time.Duration(spec.LingerUs) * time.Microsecond) // workers keep going on the settled peers
 		p.stop.Store(true)
 		p.progress[finIdx].Add(1)
 	})
@@ -937,7 +940,9 @@ func (f c40Frame) short() string {
 	return s
 }
 
-func (f c40Frame) String() string { return fmt.Sprintf("%s %s:%d", f.short(), filepath.Base(f.File), f.Line) }
+func (f c40Frame) String() string {
+	return fmt.Sprintf("%s %s:%d", f.short(), filepath.Base(f.File), f.Line)
+}
 
 var c40FileLineRe = regexp.MustCompile(`^(.*\.(?:go|s)):(\d+)(?: \+0x[0-9a-f]+)?$`) //nolint:gochecknoglobals
 
